@@ -31,7 +31,7 @@ ASSUMPTIONS = [
 ]
 REQUIRED_CLASSES = ["bam", "bam-observe-after-write", "view-argument", "never-read-argument", "signed-numbers", "scientific-floats", "list-valued-column", "genotype-column", "merge-distance>0", "typed-info",
                     "lazy-chunk", "strops", "intervals", "sequence", "encoding", "genomic", "table"]
-BOUNDS = {"quick": "60 calls per registry entry (61 entries) plus 120 lazily read chunks per format (12 formats)", "thorough": "1500 calls per entry, 2500 chunks per format"}
+BOUNDS = {"quick": "60 calls per registry entry (62 entries) plus 120 lazily read chunks per format (12 formats)", "thorough": "1500 calls per entry, 2500 chunks per format"}
 BUDGET_S = {"quick": 200, "thorough": 1500}
 
 
@@ -312,6 +312,16 @@ def registry():
     def _(c):
         x, base = dna(c, ae.ACGTEncoding)
         return [x, base], lambda: bnp.change_encoding(x, bnp.encodings.BaseEncoding)
+
+    @reg("GenotypeRowEncoding.encode", "encoding")
+    def _(c):
+        # rows of genotype text as the VCF reader cuts them out: tab-separated calls, the last one followed by the line break
+        from bionumpy.encodings.vcf_encoding import GenotypeRowEncoding, PhasedGenotypeRowEncoding
+        calls = ["0|1", "1|1", "0/0", "./.", "1/0", "0|0"]
+        n_samples = 1 + c["k"] % 3
+        rows = ["\t".join(calls[(i + j + c["d"]) % len(calls)] for j in range(n_samples)) + "\n" for i in range(1 + c["S"] % 4)]
+        x = bnp.as_encoded_array(rows)
+        return [x], lambda: GenotypeRowEncoding.encode(x)
 
     @reg("change_encoding(from-ascii)", "encoding")
     def _(c):
